@@ -34,7 +34,7 @@ func nftRandom(fl *drv.Flags, rng *rand.Rand, w *chain.TraceWriter) {
 	vals := map[string][]string{"n": {"na", "nb", "", "x"}, "u": {"ua", "ub", "", "x"},
 		"h": {"ha", "hb", "", "x"}, "d": {"da", "db", "", "x"}}
 	pick := func(l []string) string { return l[rng.Intn(len(l))] }
-	longURI := fl.CfgInt("uri257", 0) != 0
+	longURI := fl.CfgInt("uri257", 1) != 0
 	odd := 40 // one event in odd/3 carries an out-of-range metadata value
 	metaArg := func(ev chain.M, pKeep int, allowKeepData bool) {
 		for _, f := range []string{"n", "u", "h", "d"} {
